@@ -174,11 +174,14 @@ PartCat == << S("."), S(".."), S("..."), S("a."), S("a "), S(". "), S(" ."), S("
               S("/"), S("\\"), S("//"), Rep(97, 8), Rep(97, 9), Rep(97, 20), Rep(97, 21), Rep(97, 7) \o <<DOT>>,
               Rep(97, 8) \o <<DOT>>, Rep(97, 7) \o <<EAC>>, Rep(97, 19) \o <<SLASH>>, Rep(DOT, 9), Rep(97, 300),
               S("%2e%2e"), S("%2F"), S("CON"), <<97, TAB, 98>>, <<127>>, <<128>>, <<97, 13, 10, 98>>, <<FWX>>,
-              S("a*b|c<d>e\"f") >>
+              S("a*b|c<d>e\"f"),
+              \* a control character at the very end / very start of an otherwise plain name
+              <<97, 10>>, <<97, 10, 10>>, <<10>>, <<97, 13>>, <<97, TAB>>, <<10, 97>>, <<97, 31>>, <<97, 46, 98, 10>>,
+              <<65, 45, 95, 49, 10>>, <<97, 0>>, <<97, 127>> >>
 
 \* ---- URLs for get_filename: scheme x (host, query) x path of <= 3 catalogue segments
 NameSegs == << S("a"), S("A"), S(".."), <<>>, S("%2e%2e"), S("%2E"), S("%2F"), S("%2f..%2f"), S("a%20"), S("a."),
-               S("%00"), S("a\\b"), S("%5C"), <<EAC>>, S("a b") >>
+               S("%00"), S("a\\b"), S("%5C"), <<EAC>>, S("a b"), S("a%0A") >>
 NameSchemes == << S("http://"), S("ftp://") >>
 NameHostQuery == << <<S("h"), <<>>>>, <<S("h"), S("?a/b")>>, <<S("a.x.:81"), <<>>>>, <<S("[::1]:81"), S("?../..%2F%2e")>> >>
 
